@@ -11,6 +11,7 @@ DECIDING = ["O1:apply", "O1:apply-choi", "O2:kraus_to_choi", "O3:choi_to_kraus-a
 RULE = ("cases = random maps (d_in, d_out in 1..4, Kraus rank 1..d_in*d_out, real/complex, CP / Hermiticity-preserving non-CP / general) "
         "in every accepted representation form; a signature is (monitor, form, d_in, d_out, rank class, field, class) and is non-trivial "
         "when d_in != d_out or entries are complex or the map is not CP")
+THOROUGH_REPEAT = 8  # the thorough tier runs its randomised case kinds this many times (new inputs each time)
 ASSUMPTIONS = [
     "reference = explicit loop sum_i A_i X B_i^dagger and J = sum_ij E_ij (x) Phi(E_ij) built from it",
     "a nested list [[K1, K2]] is read by the library as one (A, B) pair, so the one-row nested form is probed only with r > 2",
